@@ -178,25 +178,34 @@ theorem op_of_roles (π : Wire → Wire) (o1 o2 : Op) (hm : nodeMatch (.gate o1)
 
 /-! ## from the node bijection to the operation sequences -/
 
-/-- a labelled circuit DAG together with the operation list it represents -/
-structure CircRep (g : MG) (W : List Wire) (l : List Op) (body : Wire → List Nd) : Prop where
-  rep : Rep g W body
-  ops : ∀ w ∈ W, wireOps g body w = l.filter (touches w)
-  complete : ∀ w ∈ W, ∀ n ∈ body w, ∀ o, g.opOf n = some (.gate o) → ∀ w' ∈ opWires o, w' ∈ W ∧ n ∈ body w'
-  count : g.nodes.length = 2 * W.length + l.length
+/-- the graph is a family of register paths over `W`, the operations along the path of `w` are `S w`, and every operation
+    node lies on the path of each of its registers -/
+def GraphInv (W : List Wire) (g : MG) (S : Wire → List Op) : Prop :=
+  ∃ body, Rep0 g W body ∧ (∀ w ∈ W, wireOps g body w = S w) ∧
+    (∀ n o, g.opOf n = some (.gate o) → ∀ w' ∈ opWires o, w' ∈ W ∧ n ∈ body w')
 
-theorem BuildInv.circRep {W : List Wire} {g : MG} {l : List Op} (h : BuildInv W g l) :
-    ∃ body, CircRep g.addControlTarget2 W l body := by
-  obtain ⟨body, r, _, _, hops, hcomp, hcount⟩ := h
-  refine ⟨body, ⟨r.addControlTarget2, ?_, ?_, ?_⟩⟩
+theorem BuildInv.graphInv {W : List Wire} {g : MG} {l : List Op} (h : BuildInv W g l) :
+    GraphInv W g (fun w => l.filter (touches w)) := by
+  obtain ⟨body, r, _, _, hops, hon, _⟩ := h
+  exact ⟨body, r, hops, hon⟩
+
+/-- a labelled circuit DAG together with the operation sequences it represents -/
+structure CircRep (g : MG) (W : List Wire) (S : Wire → List Op) (body : Wire → List Nd) : Prop where
+  rep : Rep g W body
+  ops : ∀ w ∈ W, wireOps g body w = S w
+  onPath : ∀ n o, g.opOf n = some (.gate o) → ∀ w' ∈ opWires o, w' ∈ W ∧ n ∈ body w'
+
+theorem GraphInv.circRep {W : List Wire} {g : MG} {S : Wire → List Op} (h : GraphInv W g S) :
+    ∃ body, CircRep g.addControlTarget2 W S body := by
+  obtain ⟨body, r, hops, hon⟩ := h
+  refine ⟨body, ⟨r.addControlTarget2, ?_, ?_⟩⟩
   · rw [addControlTarget2_eq g W body r]; exact hops
-  · rw [addControlTarget2_eq g W body r]; exact hcomp
-  · rw [addControlTarget2_eq g W body r]; exact hcount
+  · rw [addControlTarget2_eq g W body r]; exact hon
 
 /-- **the operations on register `π w` of the second circuit are the renamed operations on register `w` of the first** -/
-theorem iso2_ops (g1 g2 : MG) (W1 W2 : List Wire) (l1 l2 : List Op) (B1 B2 : Wire → List Nd)
-    (c1 : CircRep g1 W1 l1 B1) (c2 : CircRep g2 W2 l2 B2) (φ : Nd → Nd) (hf : IsoFacts2 g1 g2 φ) (w : Wire) (hw : w ∈ W1) :
-    l2.filter (touches (wireMap φ w)) = (l1.filter (touches w)).map (renOp (wireMap φ)) := by
+theorem iso2_ops (g1 g2 : MG) (W1 W2 : List Wire) (S1 S2 : Wire → List Op) (B1 B2 : Wire → List Nd)
+    (c1 : CircRep g1 W1 S1 B1) (c2 : CircRep g2 W2 S2 B2) (φ : Nd → Nd) (hf : IsoFacts2 g1 g2 φ) (w : Wire) (hw : w ∈ W1) :
+    S2 (wireMap φ w) = (S1 w).map (renOp (wireMap φ)) := by
   obtain ⟨hw2, _, _, _, hb, _⟩ := iso2_wires g1 g2 W1 W2 B1 B2 c1.rep c2.rep φ hf w hw
   rw [← c2.ops _ hw2, ← c1.ops w hw]
   unfold wireOps
@@ -215,7 +224,7 @@ theorem iso2_ops (g1 g2 : MG) (W1 W2 : List Wire) (l1 l2 : List Op) (B1 B2 : Wir
   congr 1
   apply op_of_roles (wireMap φ) o1 o2 hab (c1.rep.wiresNodup n o1 ho1)
   intro w' hw'
-  obtain ⟨hw'W, hnw'⟩ := c1.complete w hw n hn o1 ho1 w' hw'
+  obtain ⟨hw'W, hnw'⟩ := c1.onPath n o1 ho1 w' hw'
   obtain ⟨hw2', ht', _, _, hb', hr'⟩ := iso2_wires g1 g2 W1 W2 B1 B2 c1.rep c2.rep φ hf w' hw'W
   have hφn : φ n ∈ B2 (wireMap φ w') := by rw [hb']; exact List.mem_map_of_mem hnw'
   obtain ⟨_, o2', _, ho2', hin⟩ := c2.rep.bodyOp _ hw2' _ hφn
@@ -292,7 +301,35 @@ structure RenamedBy (π : Wire → Wire) (c1 c2 : Circuit) : Prop where
   inj : ∀ w ∈ wiresN c1.ne c1.np c1.nc, ∀ w' ∈ wiresN c1.ne c1.np c1.nc, π w = π w' → w = w'
   surj : ∀ w2 ∈ wiresN c1.ne c1.np c1.nc, ∃ w ∈ wiresN c1.ne c1.np c1.nc, π w = w2
   wires : ∀ w ∈ wiresN c1.ne c1.np c1.nc, c2.ops.filter (touches (π w)) = (c1.ops.filter (touches w)).map (renOp π)
-  len : c1.ops.length = c2.ops.length
+
+/-- the graph-level form: two circuit DAGs (however they were built) that the repaired comparison reports isomorphic
+    represent operation sequences that are renamings of each other, register by register -/
+theorem iso2_sound_graphs (g1 g2 : MG) (ne1 np1 nc1 ne2 np2 nc2 : Nat) (S1 S2 : Wire → List Op)
+    (i1 : GraphInv (wiresN ne1 np1 nc1) g1 S1) (i2 : GraphInv (wiresN ne2 np2 nc2) g2 S2) (hiso : isoGraphs2 g1 g2 = true) :
+    ne1 = ne2 ∧ np1 = np2 ∧ nc1 = nc2 ∧ ∃ π : Wire → Wire,
+      (∀ w ∈ wiresN ne1 np1 nc1, π w ∈ wiresN ne1 np1 nc1 ∧ (π w).t = w.t) ∧
+      (∀ w ∈ wiresN ne1 np1 nc1, ∀ w' ∈ wiresN ne1 np1 nc1, π w = π w' → w = w') ∧
+      (∀ w2 ∈ wiresN ne1 np1 nc1, ∃ w ∈ wiresN ne1 np1 nc1, π w = w2) ∧
+      (∀ w ∈ wiresN ne1 np1 nc1, S2 (π w) = (S1 w).map (renOp π)) := by
+  obtain ⟨f, hf⟩ := isoGraphs2_witness g1 g2 hiso
+  obtain ⟨_, hfacts⟩ := isoCheck2_facts _ _ f hf
+  obtain ⟨B1, cr1⟩ := i1.circRep
+  obtain ⟨B2, cr2⟩ := i2.circRep
+  let π := wireMap (mapFn f)
+  have hW := fun w hw => iso2_wires _ _ _ _ B1 B2 cr1.rep cr2.rep (mapFn f) hfacts w hw
+  have hcounts := counts_eq ne1 np1 nc1 ne2 np2 nc2 π
+    (fun w hw => ⟨(hW w hw).1, (hW w hw).2.1⟩)
+    (fun w hw w' hw' => wireMap_inj _ _ _ _ B1 B2 cr1.rep cr2.rep (mapFn f) hfacts w w' hw hw')
+    (fun w2 hw2 => wireMap_surj _ _ _ _ B1 B2 cr1.rep cr2.rep (mapFn f) hfacts w2 hw2)
+  obtain ⟨e1, e2, e3⟩ := hcounts
+  have hWeq : wiresN ne2 np2 nc2 = wiresN ne1 np1 nc1 := by rw [e1, e2, e3]
+  refine ⟨e1, e2, e3, π, ?_, ?_, ?_, ?_⟩
+  · intro w hw
+    exact ⟨hWeq ▸ (hW w hw).1, (hW w hw).2.1⟩
+  · exact fun w hw w' hw' => wireMap_inj _ _ _ _ B1 B2 cr1.rep cr2.rep (mapFn f) hfacts w w' hw hw'
+  · intro w2 hw2
+    exact wireMap_surj _ _ _ _ B1 B2 cr1.rep cr2.rep (mapFn f) hfacts w2 (hWeq ▸ hw2)
+  · exact fun w hw => iso2_ops _ _ _ _ _ _ B1 B2 cr1 cr2 (mapFn f) hfacts w hw
 
 /-- **soundness of the repaired `circuit_is_isomorphic`**: a positive answer exhibits a renaming of the registers within
     each type that turns the operation sequence of every register of the first circuit into the operation sequence of
@@ -307,29 +344,8 @@ theorem iso2_sound (c1 c2 : Circuit) (h1 : ∀ o ∈ c1.ops, OpOK (wiresN c1.ne 
   have hiso : isoGraphs2 g1 g2 = true := by
     simp only [bind, Except.bind, pure, Except.pure] at h
     injection h
-  obtain ⟨f, hf⟩ := isoGraphs2_witness g1 g2 hiso
-  obtain ⟨_, hfacts⟩ := isoCheck2_facts _ _ f hf
-  obtain ⟨B1, cr1⟩ := i1.circRep
-  obtain ⟨B2, cr2⟩ := i2.circRep
-  let π := wireMap (mapFn f)
-  have hW := fun w hw => iso2_wires _ _ _ _ B1 B2 cr1.rep cr2.rep (mapFn f) hfacts w hw
-  have hcounts := counts_eq c1.ne c1.np c1.nc c2.ne c2.np c2.nc π
-    (fun w hw => ⟨(hW w hw).1, (hW w hw).2.1⟩)
-    (fun w hw w' hw' => wireMap_inj _ _ _ _ B1 B2 cr1.rep cr2.rep (mapFn f) hfacts w w' hw hw')
-    (fun w2 hw2 => wireMap_surj _ _ _ _ B1 B2 cr1.rep cr2.rep (mapFn f) hfacts w2 hw2)
-  obtain ⟨e1, e2, e3⟩ := hcounts
-  have hWeq : wiresN c2.ne c2.np c2.nc = wiresN c1.ne c1.np c1.nc := by rw [e1, e2, e3]
-  refine ⟨π, ⟨e1, e2, e3, ?_, ?_, ?_, ?_, ?_⟩⟩
-  · intro w hw
-    exact ⟨hWeq ▸ (hW w hw).1, (hW w hw).2.1⟩
-  · exact fun w hw w' hw' => wireMap_inj _ _ _ _ B1 B2 cr1.rep cr2.rep (mapFn f) hfacts w w' hw hw'
-  · intro w2 hw2
-    exact wireMap_surj _ _ _ _ B1 B2 cr1.rep cr2.rep (mapFn f) hfacts w2 (hWeq ▸ hw2)
-  · exact fun w hw => iso2_ops _ _ _ _ _ _ B1 B2 cr1 cr2 (mapFn f) hfacts w hw
-  · have hlen := hfacts.len
-    simp only [List.length_map] at hlen
-    rw [cr1.count, cr2.count, hWeq] at hlen
-    omega
+  obtain ⟨e1, e2, e3, π, a, b, c, d⟩ := iso2_sound_graphs g1 g2 _ _ _ _ _ _ _ _ i1.graphInv i2.graphInv hiso
+  exact ⟨π, ⟨e1, e2, e3, a, b, c, d⟩⟩
 
 /-! ## well-formed circuits -/
 
@@ -358,6 +374,66 @@ theorem opOK_iff (c : Circuit) (o : Op) :
       exact (mem_wiresN _ _ _ _).2 (hc r hr)
 
 /-! ## renamed circuits are equivalent -/
+
+/-- two operation lists with the same subsequence on every quantum register have the same length -/
+theorem length_eq_of_wires (l1 l2 : List Op) (hne1 : ∀ o ∈ l1, o.qRegs ≠ []) (hne2 : ∀ o ∈ l2, o.qRegs ≠ [])
+    (hw : ∀ q, l1.filter (onReg q) = l2.filter (onReg q)) : l1.length = l2.length := by
+  induction l1 generalizing l2 with
+  | nil =>
+    cases l2 with
+    | nil => rfl
+    | cons b rest =>
+      exfalso
+      cases hqs : b.qRegs with
+      | nil => exact hne2 b (by simp) hqs
+      | cons q _ =>
+        have h0 := hw q
+        have hb : onReg q b = true := by unfold onReg; rw [hqs]; simp
+        simp [List.filter_cons, hb] at h0
+  | cons a rest ih =>
+    obtain ⟨q0, hq0⟩ : ∃ q0, q0 ∈ a.qRegs := by
+      cases hqs : a.qRegs with
+      | nil => exact absurd hqs (hne1 a (by simp))
+      | cons q _ => exact ⟨q, by simp⟩
+    have hq0' : onReg q0 a = true := by unfold onReg; simpa using hq0
+    have hex : ∃ b ∈ l2, disjointOps b a = false := by
+      have h0 := hw q0
+      simp only [List.filter_cons, hq0', if_true] at h0
+      have hmem : a ∈ l2.filter (onReg q0) := by rw [← h0]; simp
+      refine ⟨a, (List.mem_filter.1 hmem).1, ?_⟩
+      unfold disjointOps
+      apply Bool.eq_false_iff.2
+      intro hall
+      simp only [List.all_eq_true, Bool.not_eq_true', List.contains_eq_mem, decide_eq_false_iff_not] at hall
+      exact hall q0 hq0 hq0
+    obtain ⟨pre, b, post, he, hpre, hb⟩ := split_first_touching a l2 hex
+    subst he
+    obtain ⟨q1, hq1b, hq1a⟩ := disjointOps_false b a hb
+    have hq1a' : onReg q1 a = true := by unfold onReg; simpa using hq1a
+    have hq1b' : onReg q1 b = true := by unfold onReg; simpa using hq1b
+    have hba : b = a := by
+      have h1 := hw q1
+      rw [List.filter_append, filter_onReg_disjoint pre a q1 hq1a' hpre] at h1
+      simp only [List.filter_cons, hq1a', hq1b', if_true, List.nil_append] at h1
+      injection h1 with h1 _
+      exact h1.symm
+    subst hba
+    have hw' : ∀ q, rest.filter (onReg q) = (pre ++ post).filter (onReg q) := by
+      intro q
+      have h1 := hw q
+      rw [List.filter_append] at h1
+      rw [List.filter_append]
+      by_cases hqa : onReg q b = true
+      · rw [filter_onReg_disjoint pre b q hqa hpre] at h1 ⊢
+        simp only [List.filter_cons, hqa, if_true, List.nil_append] at h1
+        simpa using h1
+      · simp only [List.filter_cons, hqa] at h1
+        simpa using h1
+    have := ih (pre ++ post) (fun o ho => hne1 o (by simp [ho]))
+      (fun o ho => hne2 o (by rcases List.mem_append.1 ho with h | h <;> simp [h])) hw'
+    simp only [List.length_cons, List.length_append] at this ⊢
+    omega
+
 
 theorem ofQ_inj (a b : QReg) (h : Wire.ofQ a = Wire.ofQ b) : a = b := by
   cases a with | mk t i => cases b with | mk t' i' =>
@@ -391,11 +467,12 @@ theorem RenamedBy.swapEquiv {π : Wire → Wire} {c1 c2 : Circuit} (h : RenamedB
     (h1 : ∀ o ∈ c1.ops, OpOK (wiresN c1.ne c1.np c1.nc) o) (h2 : ∀ o ∈ c2.ops, OpOK (wiresN c2.ne c2.np c2.nc) o) :
     SwapEquiv (c1.ops.map (renOp π)) c2.ops := by
   have hW2 : wiresN c2.ne c2.np c2.nc = wiresN c1.ne c1.np c1.nc := by rw [h.ne, h.np, h.nc]
-  apply swapEquiv_of_wires
-  · intro o ho
+  have hne1 : ∀ o ∈ c1.ops.map (renOp π), o.qRegs ≠ [] := by
+    intro o ho
     obtain ⟨o', _, rfl⟩ := List.mem_map.1 ho
     exact qRegs_ne_nil _
-  · intro q
+  have hw : ∀ q, (c1.ops.map (renOp π)).filter (onReg q) = c2.ops.filter (onReg q) := by
+    intro q
     by_cases hq : Wire.ofQ q ∈ wiresN c1.ne c1.np c1.nc
     · obtain ⟨w, hw, hπ⟩ := h.surj _ hq
       have hwt : w.t ≠ .c := by
@@ -450,7 +527,7 @@ theorem RenamedBy.swapEquiv {π : Wire → Wire} {c1 c2 : Circuit} (h : RenamedB
         rw [← hW2]
         exact (h2 o ho).1 _ (by unfold opWires; exact List.mem_append_left _ (List.mem_map_of_mem hc))
       rw [e1, e2]
-  · rw [List.length_map]; exact h.len
+  exact swapEquiv_of_wires _ _ hne1 hw (length_eq_of_wires _ _ hne1 (fun o _ => qRegs_ne_nil o) hw)
 
 /-- exchanging neighbouring operations on disjoint registers does not change the result, in every semantics in which
     operations on disjoint quantum registers commute -/
